@@ -336,7 +336,24 @@ def dispatcher_checks(chk, want):
         mode = rng.choice(al.MODES if want == 'rows' else al.MODES[:3])
         entry = rng.choice(['c.align_pair', 'c.align_pairs', 'c.align_pairwise', 'c.corrdist', 't.align_pair',
                             't.align_pairs', 't.align_pairwise', 'pw_align', 'nw_align', 'sw_align', 'we_align'])
+        if rng.random() < 0.2:
+            # a sequence against itself with a scorer whose diagonal is NOT the best choice (mismatches or gaps score higher):
+            # the identity alignment is then not the optimum, and not even a legal local alignment when self-scores are negative
+            c = dict(c, b=list(c['a']), wB=list(c['wA']), proB=c['proA'], scorer=dict(c['scorer']))
+            lo = min(c['scorer'].values())
+            for x in set(c['a']):
+                c['scorer'][x, x] = rng.choice([lo, lo - 1.0, -1.0, 0.0, 2 * c['gop'] - 1.0])
+            chk.hist['dispatcher:self-pair with a weak diagonal'] += 1
         a, b = list(c['a']), list(c['b'])
+        wa, wb = a, b  # what a convenience wrapper receives
+        if entry in ('pw_align', 'nw_align', 'sw_align', 'we_align') and rng.random() < 0.4:
+            # the wrappers also take strings (one segment per character) and tuples; a blank is a character like any other
+            s0 = rng.choice(sorted(set(a + b)))
+            c = dict(c, a=[' ' if x == s0 else x for x in a], b=[' ' if x == s0 else x for x in b],
+                     scorer={(' ' if x == s0 else x, ' ' if y == s0 else y): v for (x, y), v in c['scorer'].items()})
+            a, b = list(c['a']), list(c['b'])
+            wa, wb = ''.join(a), rng.choice([''.join(b), tuple(b), list(b)])
+            chk.hist['wrapper called with a string (blank among the characters)'] += 1
         try:
             if entry.startswith('c.'):
                 kn = route(c, mode, 0)
@@ -345,8 +362,24 @@ def dispatcher_checks(chk, want):
                                           c['scale'], c['factor'], c['scorer'], mode, c['r'], 2)
                     res, dist = (r[0], r[1], r[2]), r[3]
                 elif entry == 'c.align_pairs':
-                    r = calign.align_pairs([(a, b)], [(list(c['wA']), list(c['wB']))], [(c['proA'], c['proB'])],
-                                           c['gop'], c['scale'], c['factor'], c['scorer'], mode, c['r'], 2)[0]
+                    # the batch entry point: each pair is aligned on its own - whether the secondary variant is used depends on
+                    # the prosodic strings of THAT pair, whatever else is in the batch
+                    seqs, wts, pros = [(a, b)], [(list(c['wA']), list(c['wB']))], [(c['proA'], c['proB'])]
+                    pos = 0
+                    if rng.random() < 0.6:
+                        syms = sorted(set(a + b))
+                        for _k in range(rng.choice([1, 2])):
+                            ca = [rng.choice(syms) for _ in range(rng.randrange(1, 6))]
+                            cb = [rng.choice(syms) for _ in range(rng.randrange(1, 6))]
+                            pool = rng.choice(['AXBYC', 'AXT_', 'T_', 'ABC#'])
+                            comp = ((ca, cb), ([1.0] * len(ca), [1.0] * len(cb)),
+                                    (''.join(rng.choice(pool) for _ in ca), ''.join(rng.choice(pool) for _ in cb)))
+                            at = rng.randrange(len(seqs) + 1)
+                            seqs.insert(at, comp[0]); wts.insert(at, comp[1]); pros.insert(at, comp[2])
+                            if at <= pos:
+                                pos += 1
+                        chk.hist['align_pairs-batch-size:%d' % len(seqs)] += 1
+                    r = calign.align_pairs(seqs, wts, pros, c['gop'], c['scale'], c['factor'], c['scorer'], mode, c['r'], 2)[pos]
                     res, dist = (r[0], r[1], r[2]), r[3]
                 elif entry == 'c.align_pairwise':
                     # secondary detection is over *all* prosodic strings here
@@ -371,22 +404,22 @@ def dispatcher_checks(chk, want):
                 real = al.canon_real(kn, res)
             elif entry == 'pw_align':
                 kn = route(c, mode, 1)
-                r = pw.pw_align(a, b, gop=c['gop'], scale=c['scale'], scorer=c['scorer'], mode=mode)
+                r = pw.pw_align(wa, wb, gop=c['gop'], scale=c['scale'], scorer=c['scorer'], mode=mode)
                 real, dist = al.canon_real(kn, r), None
             elif entry == 'nw_align':
                 kn = 'm_nw_align'
                 c = dict(c, gop=float(int(c['gop'])) or -1.0)
-                r = pw.nw_align(a, b, scorer=c['scorer'], gap=c['gop'])
+                r = pw.nw_align(wa, wb, scorer=c['scorer'], gap=c['gop'])
                 real, dist = al.canon_real(kn, r), None
             elif entry == 'sw_align':
                 kn = 'm_sw_align'
                 c = dict(c, gop=float(int(c['gop'])) or -1.0)
-                r = pw.sw_align(a, b, scorer=c['scorer'], gap=c['gop'])
+                r = pw.sw_align(wa, wb, scorer=c['scorer'], gap=c['gop'])
                 real, dist = al.canon_real(kn, r), None
             else:
                 kn = 'm_sw_align'
                 c = dict(c, gop=-1.0)
-                outs = pw.we_align(a, b, scorer=c['scorer'], gap=-1)
+                outs = pw.we_align(wa, wb, scorer=c['scorer'], gap=-1)
                 # every returned part: equal length, no double gap, de-gaps to an infix of the input
                 e = None
                 for pa, pb, sim in outs:
@@ -425,7 +458,7 @@ def dispatcher_checks(chk, want):
             continue
         chk.count((entry, mode, al.case_key(kn, c)), nontrivial(real), branch='entry:' + entry)
         cfg = al.default_cfg(kn)
-        line = al.encode(cfg, c)
+        line = al.encode(cfg, c) if dist is not None else None
         # routing tie: the entry point returns what the routed kernel returns for the routed arguments
         # (the kernel itself is tied to the Lean model by kernel_correspondence)
         m = al.call_real(kn, c)
@@ -448,6 +481,10 @@ def dispatcher_checks(chk, want):
         e = None
         if want == 'rows':
             e = al.oracle_c01(kn, c, real)
+        elif want == 'opt' and real[0] != 'E' and len(a) <= 4 and len(b) <= 4 and al.KERNELS[kn][3] != 'dialign':
+            best = al.brute_best(kn, c)
+            if abs(best - real[-1]) > 1e-9:
+                e = 'returned score %r is not the optimum %r over all alignments' % (real[-1], best)
         elif want == 'score' and real[0] != 'E' and al.KERNELS[kn][3] != 'dialign':
             rs = al.py_rescore(kn, c, real)
             if rs != real[-1] and not (rs != rs):
@@ -509,9 +546,47 @@ def class2tokens_checks(chk):
         if ([t for t in real if t != '-'] != tokens or len(real) != len(classes)
                 or any((r == '-') != (c in '-X') for r, c in zip(real, classes))):
             fails.append((tokens, classes, real))
+    # local mode: [prefix, aligned core, suffix]; gaps in the core spelled '-' or 'X', default and other output gap symbols
+    lines, cases = [], []
+    for _ in range(n // 2):
+        L = rng.choice([1, 2, 3, 4, 6, 9])
+        tokens = ['t%d' % i for i in range(L)]
+        pre = rng.randrange(0, L)
+        suf = rng.randrange(0, L - pre)
+        core = L - pre - suf
+        mid, k = [], 0
+        while k < core:
+            if rng.random() < 0.35:
+                mid.append(rng.choice('-X'))
+            else:
+                mid.append(rng.choice('KPTSAEI'))
+                k += 1
+        while rng.random() < 0.25:
+            mid.append(rng.choice('-X'))
+        gap_char = rng.choice(['-', '-', 'Ø', '*'])
+        classes = ['K' * pre, ''.join(mid) if rng.random() < 0.5 else list(mid), 'K' * suf]
+        cases.append((tokens, classes, gap_char, pre, suf, mid))
+        lines.append('class2tokensL|%d %d %d|%s' % (L, pre, suf, ' '.join('0' if c in '-X' else '1' for c in mid)))
+    outs = drv.ask_many(lines)
+    nloc = 0
+    for (tokens, classes, gap_char, pre, suf, mid), o in zip(cases, outs):
+        try:
+            real = class2tokens(tokens, classes, gap_char=gap_char, local=True)
+        except Exception as ex:  # noqa
+            fails.append((tokens, classes, 'local: raised %s' % type(ex).__name__))
+            continue
+        nloc += 1
+        model = [(gap_char if t == '-' else 't' + t) for t in o.split()[1:]] if o.startswith('C') else None
+        chk.count(('c2t-local', tuple(mid), pre, suf, gap_char), any(c in '-X' for c in mid) and suf > 0, branch='class2tokens-local')
+        if real != model:
+            bad.append((tokens, classes, real, model))
+        want = tokens[pre:len(tokens) - suf]
+        if ([t for t in real if t != gap_char] != want or len(real) != len(mid)
+                or any((r == gap_char) != (c in '-X') for r, c in zip(real, mid))):
+            fails.append((tokens, classes, real))
     drv.close()
-    chk.obligation('correspondence:class2tokens', 'correspondence', not bad and not fails,
-                   'cases=%d mismatches=%d oracle-failures=%d' % (n, len(bad), len(fails)))
+    chk.obligation('correspondence:class2tokens (global and local mode)', 'correspondence', not bad and not fails,
+                   'cases=%d local=%d mismatches=%d oracle-failures=%d' % (n, nloc, len(bad), len(fails)))
     for f in fails[:1]:
         chk.violation('class2tokens loses/moves tokens', {'kind': 'class2tokens', 'tokens': f[0], 'classes': f[1], 'real': f[2]})
     if bad and not fails:
